@@ -218,6 +218,6 @@ SUBS = [
 
 MANIFEST = dict(
     technique="property-based testing: Hypothesis-generated beat-space charts rendered to BMS text with syntactic freedom (subdivision, line order, repeated lines, noise) vs an independent interpreter and exact tempo integration",
-    level_text="Exploration: thousands of generated BMS texts per run over the five layouts, three line-order classes, channel 03/08 tempo changes on and inside measure lines and LNOBJ holds agree with vlib/ref/bms.py on every (column, ms, sample) / (column, ms, length, sample) multiset and on the header tables; the generator is itself round-tripped through the reference in every case. Sampling cannot prove absence.",
+    level_text="Exploration: thousands of generated BMS texts per run over the five layouts, three line-order classes, channel 03/08 tempo changes on and inside measure lines and LNOBJ holds agree with vlib/ref/bms.py on every (column, ms, sample) / (column, ms, length, sample) multiset and on the header tables; the generator is itself round-tripped through the reference in every case. Sampling cannot prove absence. The in-domain real BMS files shipped with the repository (no time-signature channel) are read and compared too; thorough adds an atheris/libFuzzer campaign on the same strategy.",
     level_note="trusted: vlib/ref/bms.py (BMS rules, 150 lines), vlib/ref/timing.py, Hypothesis; domain: 4/4, #BPM present, tempo changes on the engine's snap grid (denominator <= 96 relative to the previous change), upper-case ids, no stops",
 )
